@@ -86,17 +86,6 @@ theorem orderedDisjoint_of_pairwise (l : List Cand)
       · exact Or.inl h0
       · exact Or.inr ⟨by omega, by omega⟩
 
-theorem isSortedCands_of_pairwise (l : List Cand) (h : l.Pairwise cle) : isSortedCands l = true := by
-  induction l with
-  | nil => rfl
-  | cons a t ih =>
-    cases t with
-    | nil => rfl
-    | cons b r =>
-      rw [List.pairwise_cons] at h
-      have hab : candLess b a = false := h.1 b (by simp)
-      simp [isSortedCands, hab, ih h.2]
-
 /-- **C02 as evaluated by the driver on the implementation's output of `gatherMatches`** -/
 theorem C02_checkGather (name : Bytes) (atoms : List Atom) :
     checkGather name (collect atoms) (gatherMatches name atoms) = true := by
